@@ -112,6 +112,18 @@ theorem canonical_fixed_point (dec : List UInt8 → List Char) (hd : DecOK dec) 
   refine ⟨q', h1, h2, ?_⟩
   rw [← encode_erase, h2, encode_erase]
 
+/-- **the canonical text determines the query**: two well-formed queries with the same canonical text are the
+same query up to source positions — so the canonical text is a sound cache key (no two different
+well-formed queries collide) -/
+theorem encode_injective (dec : List UInt8 → List Char) (hd : DecOK dec) (q₁ q₂ : Query)
+    (h₁ : wfTop Gen.escapeTable q₁ = true) (h₂ : wfTop Gen.escapeTable q₂ = true)
+    (he : q₁.encode Gen.escapeTable = q₂.encode Gen.escapeTable) : q₁.erase = q₂.erase := by
+  obtain ⟨a, ha, ea⟩ := print_parse dec hd q₁ h₁
+  obtain ⟨b, hb, eb⟩ := print_parse dec hd q₂ h₂
+  rw [he, hb] at ha
+  cases ha
+  rw [← ea, eb]
+
 -- non-vacuity: the hypotheses hold for the driver's decoder and for both sample queries
 example : DecOK decUtf8 ∧ wfTop Gen.escapeTable sample = true ∧ wfTop Gen.escapeTable sampleRtq = true :=
   ⟨Liquer.decUtf8_ok, sample_wf, sampleRtq_wf⟩
@@ -167,4 +179,4 @@ theorem finding_res_header_empty_param :
 
 end Liquer.C02
 
--- OBLIGATIONS: Liquer.C02.inst_terminals Liquer.C02.inst_grammar_shape Liquer.C02.inst_grammar Liquer.C02.sample_wf Liquer.C02.sampleRtq_wf Liquer.C02.encode_erase Liquer.C02.encode_no_ws Liquer.C02.parseQuery_encode Liquer.C02.print_parse Liquer.C02.canonical_fixed_point Liquer.C02.real_fixed_point Liquer.C02.finding_rtq_capture Liquer.C02.finding_res_header_empty_param
+-- OBLIGATIONS: Liquer.C02.inst_terminals Liquer.C02.inst_grammar_shape Liquer.C02.inst_grammar Liquer.C02.sample_wf Liquer.C02.sampleRtq_wf Liquer.C02.encode_erase Liquer.C02.encode_no_ws Liquer.C02.parseQuery_encode Liquer.C02.print_parse Liquer.C02.canonical_fixed_point Liquer.C02.real_fixed_point Liquer.C02.finding_rtq_capture Liquer.C02.finding_res_header_empty_param Liquer.C02.encode_injective
